@@ -64,6 +64,13 @@ def extract(repo):
                                       ["dxdr_e_pg = np.einsum('pn,end->epd', dNdr_pg, coord_e, optimize='optimal')", "normals_e_pg = np.cross((0, 0, 1), dxdr_e_pg)",
                                        "dxds_e_pg = np.einsum('pn,end->epd', dNds_pg, coord_e, optimize='optimal')", "normals_e_pg = np.cross(dxdr_e_pg, dxds_e_pg)"], "Get_normals_e_pg")
     forms["Get_jacobian_e_pg"] = _need(_fn(etree, "Get_jacobian_e_pg", "_GroupElem"), ["jacobian_e_pg = FeArray.asfearray(Det(F_e_pg))", "jacobian_e_pg = np.abs(jacobian_e_pg)"], "Get_jacobian_e_pg")
+    # the geometric objects (lines of beam members, contours) are moved with the same helpers: each point by the image of its own coordinates
+    gtree2 = ast.parse(open(os.path.join(repo, "EasyFEA", "Geoms", "_geom.py"), encoding="utf-8").read())
+    forms["Geom.Translate"] = _need(_fn(gtree2, "Translate", "_Geom"), ["obj = self.copy() if copy else self", "p.Translate(dx, dy, dz)"], "_Geom.Translate")
+    forms["Geom.Rotate"] = _need(_fn(gtree2, "Rotate", "_Geom"), ["obj = self.copy() if copy else self", "oldCoord = obj.coord", "newCoord = Rotate(oldCoord, theta, center, direction)", "dec = newCoord - oldCoord",
+                                                                 "point.Translate(*dec[p])"], "_Geom.Rotate")
+    forms["Geom.Symmetry"] = _need(_fn(gtree2, "Symmetry", "_Geom"), ["obj = self.copy() if copy else self", "oldCoord = obj.coord", "newCoord = Symmetry(oldCoord, point, n)", "dec = newCoord - oldCoord",
+                                                                     "pt.Translate(*dec[p])"], "_Geom.Symmetry")
     return rows, forms
 
 
